@@ -4,7 +4,7 @@
 
     Grammar (declarative): Events/Grammar.v [WF]; recogniser (executable): [wf], [wf_prefix].
     Emitter model: Events/Emitter.v. *)
-From NL Require Import Events.Grammar Events.GrammarProofs Events.Emitter Events.EmitterProofs.
+From NL Require Import Events.Grammar Events.GrammarProofs Events.Completion Events.Emitter Events.EmitterProofs.
 Open Scope Z_scope.
 
 (** the executable recogniser decides exactly the grammar *)
@@ -19,6 +19,13 @@ Proof. exact prefix_closed. Qed.
 (** the prefix recogniser accepts every stream that can be completed to a well-formed one *)
 Theorem C09_prefix_sound : forall r es, WFP r es -> wf_prefix r es = true.
 Proof. exact prefix_sound. Qed.
+
+(** ... and only those: every stream accepted by the prefix recogniser can be completed to a
+    well-formed stream (close the open prompt, command loop, trace call and trace of every live
+    trace in stack order; a command loop that has not asked yet gets one prompt with a fresh
+    number) *)
+Theorem C09_prefix_complete : forall r es, wf_prefix r es = true -> exists rest, WF r (es ++ rest).
+Proof. exact prefix_complete. Qed.
 
 (** the per-trace automaton accepts exactly the per-trace language *)
 Theorem C09_trace_language : forall r t l, prun r t PNone l = Some PDone <-> Trace r t l.
@@ -54,7 +61,13 @@ Example C09_example_nonvacuous :
   (* a trace-call number handed out twice *)
   wf_prefix 1 [StartTrace 1 1 0; StartTraceCall 1 1 1 0 0; EndTraceCall 1 1 1; StartTrace 1 2 0; StartTraceCall 1 2 1 0 0] = false /\
   (* stdout after the end of its trace *)
-  wf_prefix 1 [StartTrace 1 1 0; EndTrace 1 1; WriteStdout 1 1 0] = false.
+  wf_prefix 1 [StartTrace 1 1 0; EndTrace 1 1; WriteStdout 1 1 0] = false /\
+  (* the completion of the truncated stream: trace 1 at an open prompt, trace 2 in a command
+     loop that has not asked yet (gets the fresh prompt number 3) *)
+  completion 1 (firstn 9 ex_stream) =
+    [EndPrompt 1 1 3 1 0; EndCmdloop 1 1 3; EndTraceCall 1 1 3; EndTrace 1 1;
+     StartPrompt 1 2 2 3 0; EndPrompt 1 2 2 3 0; EndCmdloop 1 2 2; EndTraceCall 1 2 2; EndTrace 1 2] /\
+  wf 1 (firstn 9 ex_stream ++ completion 1 (firstn 9 ex_stream)) = true.
 Proof.
   split; [apply recogniser_correct; vm_compute; reflexivity|].
   vm_compute. repeat split; reflexivity.
@@ -82,4 +95,5 @@ Print Assumptions C09_emitter_wf.
 Print Assumptions C09_emitter_prefix.
 Print Assumptions C09_prefix_closed.
 Print Assumptions C09_prefix_sound.
+Print Assumptions C09_prefix_complete.
 Print Assumptions C09_trace_language.
